@@ -5,7 +5,7 @@
    Part 2 (abstract): for ANY periodic, window-independent edge relation on stream positions, the cross-iteration paths
             seen through the window [0, 2n) and through the rotated window [r, r + 2n) correspond one to one, with the same
             member instructions (positions modulo n) and the same edge weights.
-   The glue between the two parts (positions vs. the line numbers of Model/Deps.lcd_entries) is NOT proved. *)
+   The glue between the two parts (positions vs. the line numbers of Model/Deps.lcd_entries) is proved in Proofs/RotationGlue.v. *)
 From Coq Require Import ZArith List Bool String Lia Arith.
 From OV Require Import Model.Num Model.Pressure Model.Deps.
 Import ListNotations.
